@@ -194,8 +194,34 @@ func (e *Engine) instrWrites(in ssa.Instruction, ws writeSet, skipLocal func(*ss
 			}
 			return
 		}
-		ws["*unknown-dynamic-call*"] = true
+		// a function value of unknown origin: any repository function or closure with this signature
+		found := false
+		for _, cand := range e.funcValueCandidates(c.Signature()) {
+			found = true
+			for f := range e.funcWrites(cand) {
+				ws[f] = true
+			}
+		}
+		if !found {
+			ws["*unknown-dynamic-call*"] = true
+		}
 	}
+}
+
+var funcValueMemo map[string][]*ssa.Function
+
+func (e *Engine) funcValueCandidates(sig *types.Signature) []*ssa.Function {
+	if funcValueMemo == nil {
+		funcValueMemo = map[string][]*ssa.Function{}
+		for _, fn := range e.allRepoFunctionsRaw() {
+			if fn.Signature.Recv() != nil {
+				continue
+			}
+			k := types.TypeString(fn.Signature, nil)
+			funcValueMemo[k] = append(funcValueMemo[k], fn)
+		}
+	}
+	return funcValueMemo[types.TypeString(sig, nil)]
 }
 
 func (e *Engine) funcWrites(fn *ssa.Function) writeSet {
@@ -394,6 +420,7 @@ func (e *Engine) cutLoop(s *State, f *Frame, lp *loop, from *ssa.BasicBlock) {
 		}
 		e.afterHavocPhi(s, f, lp, p, initVals[p], v)
 	}
+	entry.initVals = initVals
 	f.loops[lp.header] = entry
 	// allocation state at the start of an arbitrary iteration: a fresh watermark above everything
 	// allocated so far (earlier iterations allocate too)
@@ -520,7 +547,7 @@ func (e *Engine) checkLoopInvariant(s *State, f *Frame, lp *loop, from *ssa.Basi
 		which = "entry"
 	}
 	for i, inv := range invs {
-		g := e.evalSpecBool(s, f, inv, nil)
+		g := e.evalSpecBoolLoop(s, f, inv, lp, vals, entry)
 		name := fmt.Sprintf("%s#INV:%d:%s", e.loopKey(f.fn, lp), i, which)
 		if f.chain != "" {
 			name = f.chain + "/" + name
@@ -542,8 +569,38 @@ func (e *Engine) checkLoopInvariant(s *State, f *Frame, lp *loop, from *ssa.Basi
 
 func (e *Engine) assumeLoopInvariant(s *State, f *Frame, lp *loop) {
 	for _, inv := range e.contracts.loopInvariants(e, f.fn, lp.ordinal) {
-		s.assume(e.evalSpecBool(s, f, inv, nil))
+		s.assume(e.evalSpecBoolLoop(s, f, inv, lp, nil, false))
 	}
+}
+
+// evalSpecBoolLoop evaluates a loop invariant; entry(e) inside it refers to the state at loop entry
+// (header phis at their initial values, heap as it was when the loop was entered).
+func (e *Engine) evalSpecBoolLoop(s *State, f *Frame, x *specExpr, lp *loop, incoming map[*ssa.Phi]Value, atEntry bool) *Term {
+	env := e.envForFrame(s, f, nil)
+	env.pkg = x.pkg
+	le := f.loops[lp.header]
+	sub := &specEnv{vars: map[string]specVal{}, heap: s.heap, pkg: x.pkg, s: s}
+	for k, v := range env.vars {
+		sub.vars[k] = v
+	}
+	var init map[*ssa.Phi]Value
+	if le != nil {
+		sub.heap = le.heapAtEntry
+		init = le.initVals
+	} else if atEntry {
+		init = incoming // first entry: the incoming values are the initial values
+	}
+	for p, v := range init {
+		if p.Comment != "" {
+			sub.vars[p.Comment] = specVal{v, p.Type()}
+		}
+	}
+	env.entryEnv = sub
+	r := e.evalSpec(env, x.ast)
+	if len(r.v) != 1 || r.v[0].S != SBool {
+		e.fail("loop invariant %q is not boolean", x.text)
+	}
+	return r.v[0]
 }
 
 // afterHavocPhi: type-directed facts that survive a havoc (slices of non-nil tree nodes etc.)
